@@ -23,26 +23,63 @@ use std::{
 use tokio::io::{AsyncRead, AsyncWrite, ReadBuf};
 
 #[derive(Clone, Copy, Debug)]
-enum Ev {
+pub(crate) enum Ev {
     Pending,
     Chunk(usize),
     Eof,
-    Err,
+    /// a failure of the given kind (index into ERROR_KINDS)
+    Err(usize),
+}
+
+/// The io::ErrorKind variants injected as carrier failures; the same list, in the same order, as
+/// tools/gen_c04_tables.py (coq/gen/C04Tables.v: EK_PERMISSION_DENIED = 1, EK_BROKEN_PIPE = 8, EK_WRITE_ZERO = 14).
+pub(crate) const ERROR_KINDS: [io::ErrorKind; 20] = [
+    io::ErrorKind::NotFound,
+    io::ErrorKind::PermissionDenied,
+    io::ErrorKind::ConnectionRefused,
+    io::ErrorKind::ConnectionReset,
+    io::ErrorKind::ConnectionAborted,
+    io::ErrorKind::NotConnected,
+    io::ErrorKind::AddrInUse,
+    io::ErrorKind::AddrNotAvailable,
+    io::ErrorKind::BrokenPipe,
+    io::ErrorKind::AlreadyExists,
+    io::ErrorKind::WouldBlock,
+    io::ErrorKind::InvalidInput,
+    io::ErrorKind::InvalidData,
+    io::ErrorKind::TimedOut,
+    io::ErrorKind::WriteZero,
+    io::ErrorKind::Interrupted,
+    io::ErrorKind::Unsupported,
+    io::ErrorKind::UnexpectedEof,
+    io::ErrorKind::OutOfMemory,
+    io::ErrorKind::Other,
+];
+const _: () = assert!(matches!(ERROR_KINDS[1], io::ErrorKind::PermissionDenied)
+    && matches!(ERROR_KINDS[8], io::ErrorKind::BrokenPipe)
+    && matches!(ERROR_KINDS[14], io::ErrorKind::WriteZero));
+
+fn scripted_error(k: usize) -> io::Error {
+    io::Error::new(ERROR_KINDS[k % ERROR_KINDS.len()], "scripted")
 }
 
 #[derive(Default)]
-struct CarrierState {
-    rd_wire: Vec<u8>,
-    rd_pos: usize,
-    rd_script: VecDeque<Ev>,
-    wr_script: VecDeque<Ev>,
-    sent: Vec<u8>,
+pub(crate) struct CarrierState {
+    pub(crate) rd_wire: Vec<u8>,
+    pub(crate) rd_pos: usize,
+    pub(crate) rd_script: VecDeque<Ev>,
+    pub(crate) wr_script: VecDeque<Ev>,
+    pub(crate) sent: Vec<u8>,
     /// the carrier completed a shutdown
-    shut: bool,
+    pub(crate) shut: bool,
     /// the last carrier call answered Pending, and the waker it was given is the harness's
-    last_pending: bool,
-    last_waker_ok: bool,
-    harness_waker: Option<std::task::Waker>,
+    pub(crate) last_pending: bool,
+    pub(crate) last_waker_ok: bool,
+    pub(crate) harness_waker: Option<std::task::Waker>,
+    /// an exhausted script lets everything through instead of answering Pending (kind 31)
+    pub(crate) open_end: bool,
+    /// the error kind a scripted failure reports (index into ERROR_KINDS)
+    pub(crate) err_kind: usize,
 }
 
 impl CarrierState {
@@ -55,17 +92,17 @@ impl CarrierState {
 /// Scripted carrier: every poll_read / poll_write / poll_flush call consumes one script event;
 /// an exhausted script answers `Pending`.
 #[derive(Clone)]
-struct Carrier(Arc<Mutex<CarrierState>>);
+pub(crate) struct Carrier(pub(crate) Arc<Mutex<CarrierState>>);
 
 impl AsyncRead for Carrier {
     fn poll_read(self: Pin<&mut Self>, cx: &mut Context<'_>, buf: &mut ReadBuf<'_>) -> Poll<io::Result<()>> {
         let mut s = self.0.lock().unwrap();
-        let ev = s.rd_script.pop_front();
+        let ev = s.rd_script.pop_front().or(if s.open_end { Some(Ev::Chunk(usize::MAX)) } else { None });
         s.note(matches!(ev, None | Some(Ev::Pending)), cx);
         match ev {
             None | Some(Ev::Pending) => Poll::Pending,
             Some(Ev::Eof) => Poll::Ready(Ok(())),
-            Some(Ev::Err) => Poll::Ready(Err(io::Error::new(io::ErrorKind::BrokenPipe, "scripted"))),
+            Some(Ev::Err(k)) => Poll::Ready(Err(scripted_error(k))),
             Some(Ev::Chunk(n)) => {
                 let avail = s.rd_wire.len() - s.rd_pos;
                 let k = n.min(buf.remaining()).min(avail);
@@ -81,12 +118,12 @@ impl AsyncRead for Carrier {
 impl AsyncWrite for Carrier {
     fn poll_write(self: Pin<&mut Self>, cx: &mut Context<'_>, buf: &[u8]) -> Poll<io::Result<usize>> {
         let mut s = self.0.lock().unwrap();
-        let ev = s.wr_script.pop_front();
+        let ev = s.wr_script.pop_front().or(if s.open_end { Some(Ev::Chunk(usize::MAX)) } else { None });
         s.note(matches!(ev, None | Some(Ev::Pending)), cx);
         match ev {
             None | Some(Ev::Pending) => Poll::Pending,
-            Some(Ev::Err) | Some(Ev::Eof) =>
-                Poll::Ready(Err(io::Error::new(io::ErrorKind::BrokenPipe, "scripted"))),
+            Some(Ev::Err(k)) => Poll::Ready(Err(scripted_error(k))),
+            Some(Ev::Eof) => Poll::Ready(Err(scripted_error(8))),
             Some(Ev::Chunk(n)) => {
                 let k = n.min(buf.len());
                 s.sent.extend_from_slice(&buf[..k]);
@@ -96,23 +133,23 @@ impl AsyncWrite for Carrier {
     }
     fn poll_flush(self: Pin<&mut Self>, cx: &mut Context<'_>) -> Poll<io::Result<()>> {
         let mut s = self.0.lock().unwrap();
-        let ev = s.wr_script.pop_front();
+        let ev = s.wr_script.pop_front().or(if s.open_end { Some(Ev::Chunk(usize::MAX)) } else { None });
         s.note(matches!(ev, None | Some(Ev::Pending)), cx);
         match ev {
             None | Some(Ev::Pending) => Poll::Pending,
-            Some(Ev::Err) | Some(Ev::Eof) =>
-                Poll::Ready(Err(io::Error::new(io::ErrorKind::BrokenPipe, "scripted"))),
+            Some(Ev::Err(k)) => Poll::Ready(Err(scripted_error(k))),
+            Some(Ev::Eof) => Poll::Ready(Err(scripted_error(8))),
             Some(Ev::Chunk(_)) => Poll::Ready(Ok(())),
         }
     }
     fn poll_shutdown(self: Pin<&mut Self>, cx: &mut Context<'_>) -> Poll<io::Result<()>> {
         let mut s = self.0.lock().unwrap();
-        let ev = s.wr_script.pop_front();
+        let ev = s.wr_script.pop_front().or(if s.open_end { Some(Ev::Chunk(usize::MAX)) } else { None });
         s.note(matches!(ev, None | Some(Ev::Pending)), cx);
         match ev {
             None | Some(Ev::Pending) => Poll::Pending,
-            Some(Ev::Err) | Some(Ev::Eof) =>
-                Poll::Ready(Err(io::Error::new(io::ErrorKind::BrokenPipe, "scripted"))),
+            Some(Ev::Err(k)) => Poll::Ready(Err(scripted_error(k))),
+            Some(Ev::Eof) => Poll::Ready(Err(scripted_error(8))),
             Some(Ev::Chunk(_)) => {
                 s.shut = true;
                 Poll::Ready(Ok(()))
@@ -142,14 +179,14 @@ struct Case {
     npolls: usize,
 }
 
-struct Cur<'a>(&'a [u64], usize);
+pub(crate) struct Cur<'a>(pub(crate) &'a [u64], pub(crate) usize);
 impl<'a> Cur<'a> {
-    fn next(&mut self) -> Option<u64> {
+    pub(crate) fn next(&mut self) -> Option<u64> {
         let v = *self.0.get(self.1)?;
         self.1 += 1;
         Some(v)
     }
-    fn count(&mut self) -> Option<usize> {
+    pub(crate) fn count(&mut self) -> Option<usize> {
         let n = self.next()?;
         if n as usize > self.0.len() - self.1 {
             return None;
@@ -158,9 +195,9 @@ impl<'a> Cur<'a> {
     }
 }
 
-const MAX_LEN: u64 = 1 << 24;
+pub(crate) const MAX_LEN: u64 = 1 << 24;
 
-fn parse_script(c: &mut Cur, read: bool) -> Option<Vec<Ev>> {
+pub(crate) fn parse_script(c: &mut Cur, read: bool) -> Option<Vec<Ev>> {
     let n = c.count()?;
     let mut v = Vec::new();
     for _ in 0..n {
@@ -175,7 +212,14 @@ fn parse_script(c: &mut Cur, read: bool) -> Option<Vec<Ev>> {
             }
             2 if read => Ev::Eof,
             2 => return None,
-            3 => Ev::Err,
+            3 => Ev::Err(8),
+            4 => {
+                let k = c.next()?;
+                if k as usize >= ERROR_KINDS.len() {
+                    return None;
+                }
+                Ev::Err(k as usize)
+            }
             _ => return None,
         });
     }
@@ -248,7 +292,7 @@ fn parse_case(c: &[u64]) -> Option<Case> {
 }
 
 /// Message (b, len): `len` bytes `b`, the last one (when len >= 2) replaced by `b + 1 mod 256`.
-fn mk_msg(b: u8, len: usize) -> Bytes {
+pub(crate) fn mk_msg(b: u8, len: usize) -> Bytes {
     let mut v = vec![b; len];
     if len >= 2 {
         v[len - 1] = b.wrapping_add(1);
@@ -256,7 +300,7 @@ fn mk_msg(b: u8, len: usize) -> Bytes {
     Bytes::from(v)
 }
 
-fn rle(out: &mut Vec<u64>, data: &[u8]) {
+pub(crate) fn rle(out: &mut Vec<u64>, data: &[u8]) {
     let at = out.len();
     out.push(0);
     let mut runs = 0u64;
@@ -273,7 +317,7 @@ fn rle(out: &mut Vec<u64>, data: &[u8]) {
     out[at] = runs;
 }
 
-fn err_code(e: &SubstreamError) -> u64 {
+pub(crate) fn err_code(e: &SubstreamError) -> u64 {
     match e {
         SubstreamError::IoError(io::ErrorKind::PermissionDenied) => 2,
         SubstreamError::ConnectionClosed => 3,
@@ -283,7 +327,7 @@ fn err_code(e: &SubstreamError) -> u64 {
     }
 }
 
-fn poll_code(p: Poll<Result<(), SubstreamError>>) -> u64 {
+pub(crate) fn poll_code(p: Poll<Result<(), SubstreamError>>) -> u64 {
     match p {
         Poll::Pending => 0,
         Poll::Ready(Ok(())) => 1,
@@ -291,7 +335,7 @@ fn poll_code(p: Poll<Result<(), SubstreamError>>) -> u64 {
     }
 }
 
-const PANIC: u64 = 9;
+pub(crate) const PANIC: u64 = 9;
 
 fn dump_writer(sub: Option<&Substream>, car: &Carrier, sent_before: usize, wake: bool, out: &mut Vec<u64>) {
     if let Some(sub) = sub {
@@ -307,19 +351,19 @@ fn dump_writer(sub: Option<&Substream>, car: &Carrier, sent_before: usize, wake:
     out.extend([s.wr_script.len() as u64, s.shut as u64, wake as u64]);
 }
 
-struct HarnessWake;
+pub(crate) struct HarnessWake;
 impl futures::task::ArcWake for HarnessWake {
     fn wake_by_ref(_: &Arc<Self>) {}
 }
 
 /// A Pending answer is legitimate only if the last carrier call answered Pending and was given
 /// the caller's waker (otherwise nothing would ever wake the task).
-fn wake_ok(car: &Carrier, pending: bool) -> bool {
+pub(crate) fn wake_ok(car: &Carrier, pending: bool) -> bool {
     let s = car.0.lock().unwrap();
     !pending || (s.last_pending && s.last_waker_ok)
 }
 
-fn new_sub(car: &Carrier, codec: ProtocolCodec) -> Option<Substream> {
+pub(crate) fn new_sub(car: &Carrier, codec: ProtocolCodec) -> Option<Substream> {
     catch_unwind(AssertUnwindSafe(|| {
         Substream::new_verif(PeerId::random(), SubstreamId::from(7usize), Box::new(car.clone()), codec)
     }))
@@ -327,8 +371,16 @@ fn new_sub(car: &Carrier, codec: ProtocolCodec) -> Option<Substream> {
 }
 
 fn run_case(c: &[u64]) -> Vec<u64> {
-    if c.first().map(|t| *t >= 10).unwrap_or(false) {
-        return run_e2e(c);
+    match c.first().copied().unwrap_or(0) {
+        30 => return crate::c04x::run_codec(c),
+        31 => return crate::c04x::run_framed(c),
+        40 => return crate::c04y::run_writer(c),
+        41 => return crate::c04y::run_reader(c),
+        #[cfg(feature = "extra")]
+        50..=69 => return crate::c04w::run(c),
+        10..=29 => return run_e2e(c),
+        t if t >= 10 => return vec![0],
+        _ => {}
     }
     let Some(case) = parse_case(c) else { return vec![0] };
     let car = Carrier(Arc::new(Mutex::new(CarrierState::default())));
@@ -599,6 +651,11 @@ fn gen_e2e(rng: &mut Rng, thorough: bool) -> Vec<u64> {
     let mut nops = 0;
     let nmsgs = rng.range(1, if thorough { 10 } else { 6 });
     let mut unflushed = false;
+    // bytes queued since the last complete flush; a feed that finds BACKPRESSURE_BOUNDARY bytes queued makes
+    // poll_ready flush, and that flush is given up as soon as the count is below the boundary again: a close
+    // without a flush may then cut a frame in the middle (callers flush first), so such runs end with a flush
+    let mut queued = 0u64;
+    let mut force_flush = false;
     for i in 0..nmsgs {
         let b = (i * 2 + rng.below(2) * 100 + 3) % 256;
         let mut len = match tag {
@@ -616,19 +673,27 @@ fn gen_e2e(rng: &mut Rng, thorough: bool) -> Vec<u64> {
         if rng.chance(55) {
             ops.extend([1, b, len]);
             unflushed = true;
+            if queued >= 65536 {
+                force_flush = true;
+            }
+            queued += len + 10;
             if i == 0 || rng.chance(50) {
                 ops.push(2);
                 nops += 1;
                 unflushed = false;
+                queued = 0;
+                force_flush = false;
             }
         } else {
             ops.extend([3, b, len]);
             unflushed = false;
+            queued = 0;
+            force_flush = false;
         }
         nops += 1;
     }
     // callers flush before closing; now and then the close comes first and the queued frames are dropped
-    if unflushed && rng.chance(80) {
+    if unflushed && (force_flush || rng.chance(80)) {
         ops.push(2);
         nops += 1;
     }
@@ -642,7 +707,7 @@ fn gen_e2e(rng: &mut Rng, thorough: bool) -> Vec<u64> {
 
 // ---------------------------------------------------------------- generator
 
-fn varint_len(mut n: u64) -> u64 {
+pub(crate) fn varint_len(mut n: u64) -> u64 {
     let mut k = 1;
     while n >= 128 {
         n >>= 7;
@@ -651,20 +716,21 @@ fn varint_len(mut n: u64) -> u64 {
     k
 }
 
-fn push_script(c: &mut Vec<u64>, evs: &[Ev]) {
+pub(crate) fn push_script(c: &mut Vec<u64>, evs: &[Ev]) {
     c.push(evs.len() as u64);
     for e in evs {
         match e {
             Ev::Pending => c.push(0),
             Ev::Chunk(n) => c.extend([1, *n as u64]),
             Ev::Eof => c.push(2),
-            Ev::Err => c.push(3),
+            Ev::Err(8) => c.push(3),
+            Ev::Err(k) => c.extend([4, *k as u64]),
         }
     }
 }
 
 /// A script that moves about `total` bytes in chunks drawn from a size family, with stalls.
-fn gen_script(rng: &mut Rng, total: u64, calls_hint: u64, read: bool, faulty: bool) -> Vec<Ev> {
+pub(crate) fn gen_script(rng: &mut Rng, total: u64, calls_hint: u64, read: bool, faulty: bool) -> Vec<Ev> {
     let mut evs = Vec::new();
     let style = rng.below(5);
     let big = total > 6000;
@@ -681,7 +747,8 @@ fn gen_script(rng: &mut Rng, total: u64, calls_hint: u64, read: bool, faulty: bo
             evs.push(if rng.chance(50) {
                 if read { Ev::Eof } else { Ev::Chunk(0) } // end of stream / carrier accepts nothing
             } else {
-                Ev::Err
+                // every error kind the carrier may report, PermissionDenied (what a refusal looks like) more often
+                Ev::Err(if rng.chance(25) { 1 } else { rng.below(ERROR_KINDS.len() as u64) as usize })
             });
             continue;
         }
@@ -943,7 +1010,21 @@ pub fn main(args: &Args) {
     }
     for i in 0..ncases {
         let mut r = rng.fork();
-        let c = if i % 25 == 24 { gen_e2e(&mut r, thorough) } else { gen_case(&mut r, thorough) };
+        #[cfg(feature = "extra")]
+        if args.str("extra").is_some() {
+            let c = crate::c04w::gen(&mut r, thorough);
+            let t = catch_unwind(AssertUnwindSafe(|| run_case(&c))).unwrap_or(vec![PANIC_MARK]);
+            out.emit(&c, &t);
+            continue;
+        }
+        let c = match i % 50 {
+            24 | 49 => gen_e2e(&mut r, thorough),
+            3 | 13 | 23 | 33 | 43 | 8 | 28 => crate::c04x::gen_codec(&mut r, thorough),
+            18 | 38 => crate::c04x::gen_framed(&mut r, thorough),
+            1 | 11 | 21 | 31 | 41 | 6 | 26 | 46 => crate::c04y::gen_writer(&mut r, thorough),
+            16 | 36 | 9 | 29 => crate::c04y::gen_reader(&mut r, thorough),
+            _ => gen_case(&mut r, thorough),
+        };
         let t = catch_unwind(AssertUnwindSafe(|| run_case(&c))).unwrap_or(vec![PANIC_MARK]);
         out.emit(&c, &t);
     }
